@@ -457,23 +457,34 @@ theorem docList_CE {t t' : TreeInfo} (hs : Same t t') (hk : DictKeys t) (g : Ini
     rw [hs.isLayered, hs.baseProduct]
   · exact CE.of_eq (by rw [hs.release, hs.isLayered])
 
+/-- the variant `[general]` describes is found in the rearranged tree too, and is the same content -/
+def c8GetTransfer (t t' : TreeInfo) (mv : Option Str) : Prop :=
+  ∀ key v, chosenKey t.variants mv = .ok key → getItem (key.length + 1) t.variants key = .ok v →
+    ∃ v', getItem (key.length + 1) t'.variants key = .ok v' ∧ TVEq v v'
+
+/-- `main_variant` is `None` or a top-level container key: found by key, keys are distinct -/
+theorem c8_getTransfer_top {t t' : TreeInfo} {mv : Option Str} (hs : Same t t') (hk : (t.variants.map Variant.key).Nodup)
+    (hmv : MainVariantTop t mv) : c8GetTransfer t t' mv := by
+  intro key chosen hkey hchosen
+  obtain ⟨v, hvm, hvk⟩ := chosen_top hmv hkey
+  have hch : chosen = v := by
+    have := getItem_top hk hvm hvk
+    rw [hchosen] at this
+    injection this
+  subst hch
+  obtain ⟨v', hvm', hvv⟩ := hs.variants.mem_left chosen hvm
+  have hkn' : (t'.variants.map Variant.key).Nodup := hs.variants.keys.nodup_iff.mp hk
+  exact ⟨v', getItem_top hkn' hvm' (by rw [← hvv.key_eq]; exact hvk), hvv⟩
+
 /-- **a dump that succeeds for a tree succeeds for every rearrangement of it** -/
 theorem canWrite_same {t t' : TreeInfo} {mv : Option Str} {d : Ini} (hs : Same t t') (hk : DictKeys t)
-    (hmv : MainVariantTop t mv) (h : serialize t mv = .ok d) :
+    (hget : c8GetTransfer t t' mv) (h : serialize t mv = .ok d) :
     CanWrite t' mv ∧ ∃ n key v v', Written t mv d n key v ∧ TVEq v v' ∧ t'.tree.ts.toInt = .ok n ∧
       chosenKey t'.variants mv = .ok key ∧ getItem (key.length + 1) t'.variants key = .ok v' := by
   obtain ⟨n, key, chosen, w⟩ := serialize_spec h
   have wv := serialize_valid h
-  obtain ⟨v, hvm, hvk⟩ := chosen_top hmv w.hkey
-  have hch : chosen = v := by
-    have := getItem_top hk.tops hvm hvk
-    rw [w.hchosen] at this
-    injection this
-  subst hch
-  obtain ⟨v', hvm', hvv⟩ := hs.variants.mem_left chosen hvm
-  have hkn' : (t'.variants.map Variant.key).Nodup := hs.variants.keys.nodup_iff.mp hk.tops
+  obtain ⟨v', hget', hvv⟩ := hget key chosen w.hkey w.hchosen
   have hkey' : chosenKey t'.variants mv = .ok key := by rw [← chosenKey_congr hs.variants mv]; exact w.hkey
-  have hget' : getItem (key.length + 1) t'.variants key = .ok v' := getItem_top hkn' hvm' (by rw [← hvv.key_eq]; exact hvk)
   have hts' : t'.tree.ts.toInt = .ok n := by rw [← hs.ts]; exact w.hn
   refine ⟨⟨?_, ?_, ?_, ?_, ?_, ?_, ?_, ?_, ?_, ?_, ?_, ?_, ⟨n, hts'⟩, ⟨key, v', hkey', hget'⟩⟩, n, key, chosen, v', w, hvv, hts', hkey', hget'⟩
   · rw [← hs.headerVersion]; exact wv.header
@@ -518,10 +529,10 @@ theorem canWrite_same {t t' : TreeInfo} {mv : Option Str} {d : Ini} (hs : Same t
     exact h3.nodup_iff.mp h2
 
 /-- **C08 for the treeinfo writer**: the same content is written, and shows the same bytes -/
-theorem perm_treeinfo {t t' : TreeInfo} {mv : Option Str} {d : Ini} (hs : Same t t') (hk : DictKeys t)
-    (hmv : MainVariantTop t mv) (h : serialize t mv = .ok d) :
+theorem c8_perm_treeinfo_gen {t t' : TreeInfo} {mv : Option Str} {d : Ini} (hs : Same t t') (hk : DictKeys t)
+    (hget : c8GetTransfer t t' mv) (h : serialize t mv = .ok d) :
     ∃ d', serialize t' mv = .ok d' ∧ IniText.render d' = IniText.render d := by
-  obtain ⟨cw, n, key, v, v', w, hvv, hts', hkey', hget'⟩ := canWrite_same hs hk hmv h
+  obtain ⟨cw, n, key, v, v', w, hvv, hts', hkey', hget'⟩ := canWrite_same hs hk hget h
   obtain ⟨d', h'⟩ := serialize_conv cw
   refine ⟨d', h', ?_⟩
   obtain ⟨n', key', chosen', w'⟩ := serialize_spec h'
@@ -536,6 +547,167 @@ theorem perm_treeinfo {t t' : TreeInfo} {mv : Option Str} {d : Ini} (hs : Same t
   refine render_eq_of_CE w w' ?_
   rw [← generalOpts_congr hs n' key' hvv]
   exact docList_CE hs hk _
+
+theorem perm_treeinfo {t t' : TreeInfo} {mv : Option Str} {d : Ini} (hs : Same t t') (hk : DictKeys t)
+    (hmv : MainVariantTop t mv) (h : serialize t mv = .ok d) :
+    ∃ d', serialize t' mv = .ok d' ∧ IniText.render d' = IniText.render d :=
+  c8_perm_treeinfo_gen hs hk (c8_getTransfer_top hs hk.tops hmv) h
+
+/-! ### every `main_variant`: the lookup `VariantBase.__getitem__` under rearrangement -/
+
+mutual
+/-- among the children of every variant, keys are pairwise distinct and UIDs are pairwise distinct -/
+def c8SibV : Variant → Prop
+  | .mk _ _ _ _ _ _ kids => (kids.map Variant.key).Nodup ∧ (kids.map Variant.uid).Nodup ∧ c8SibL kids
+def c8SibL : List Variant → Prop
+  | [] => True
+  | v :: vs => c8SibV v ∧ c8SibL vs
+end
+
+/-- siblings are told apart by their container key and by their UID, at every level of the forest -/
+def c8Siblings (vs : List Variant) : Prop := (vs.map Variant.key).Nodup ∧ (vs.map Variant.uid).Nodup ∧ c8SibL vs
+
+theorem c8SibL_mem : ∀ {l : List Variant}, c8SibL l → ∀ v ∈ l, c8SibV v
+  | [], _, _, h => by cases h
+  | w :: ws, hs, v, h => by
+    simp only [c8SibL] at hs
+    rcases List.mem_cons.mp h with rfl | h
+    · exact hs.1
+    · exact c8SibL_mem hs.2 v h
+
+theorem c8SibV_kids {v : Variant} (h : c8SibV v) : c8Siblings v.kids := by
+  cases v; simpa [c8SibV, c8Siblings, Variant.kids] using h
+
+theorem TVEq.kids {v v' : Variant} (h : TVEq v v') : TLEq v.kids v'.kids := by
+  cases h with
+  | mk _ _ _ _ _ _ hk => exact hk
+
+theorem TVEq.uid_eq {v v' : Variant} (h : TVEq v v') : v.uid = v'.uid := by cases h; rfl
+
+mutual
+theorem TVEq.symm : ∀ {v v' : Variant}, TVEq v v' → TVEq v' v
+  | _, _, .mk key id uid name type hp hk => .mk key id uid name type (fun f => (hp f).symm) (TLEq.symm hk)
+theorem TLEq.symm : ∀ {l l' : List Variant}, TLEq l l' → TLEq l' l
+  | _, _, .nil => .nil
+  | _, _, .cons h t => .cons (TVEq.symm h) (TLEq.symm t)
+  | _, _, .swap a b l => .swap b a l
+  | _, _, .trans h1 h2 => .trans (TLEq.symm h2) (TLEq.symm h1)
+end
+
+mutual
+theorem c8_sibV_congr : ∀ {v v' : Variant}, TVEq v v' → c8SibV v → c8SibV v'
+  | _, _, .mk _ _ _ _ _ _ hk, h => by
+    simp only [c8SibV] at h ⊢
+    exact ⟨hk.keys.nodup_iff.mp h.1, hk.uids.nodup_iff.mp h.2.1, c8_sibL_congr hk h.2.2⟩
+theorem c8_sibL_congr : ∀ {l l' : List Variant}, TLEq l l' → c8SibL l → c8SibL l'
+  | _, _, .nil, h => h
+  | _, _, .cons hv t, h => by
+    simp only [c8SibL] at h ⊢
+    exact ⟨c8_sibV_congr hv h.1, c8_sibL_congr t h.2⟩
+  | _, _, .swap _ _ _, h => by
+    simp only [c8SibL] at h ⊢
+    exact ⟨h.2.1, h.1, h.2.2⟩
+  | _, _, .trans h1 h2, h => c8_sibL_congr h2 (c8_sibL_congr h1 h)
+end
+
+theorem c8_siblings_congr {l l' : List Variant} (h : TLEq l l') (hs : c8Siblings l) : c8Siblings l' :=
+  ⟨h.keys.nodup_iff.mp hs.1, h.uids.nodup_iff.mp hs.2.1, c8_sibL_congr h hs.2.2⟩
+
+/-- a scan for the first sibling with a given key / UID: under a rearrangement it finds the same content, when the
+scanned attribute tells siblings apart -/
+theorem c8_find_congr (f : Variant → Str) (hf : ∀ v v', TVEq v v' → f v = f v') {l l' : List Variant} (h : TLEq l l')
+    (hp : (l.map f).Perm (l'.map f)) (hn : (l.map f).Nodup) (k : Str) :
+    (l.find? (fun x => f x == k) = none ∧ l'.find? (fun x => f x == k) = none) ∨
+      ∃ v v', l.find? (fun x => f x == k) = some v ∧ l'.find? (fun x => f x == k) = some v' ∧ TVEq v v' := by
+  have hn' : (l'.map f).Nodup := hp.nodup_iff.mp hn
+  cases hfind : l.find? (fun x => f x == k) with
+  | some v =>
+    obtain ⟨hm, hk⟩ := mem_of_find _ l v hfind
+    have hk' : f v = k := by simpa using hk
+    obtain ⟨v', hm', hvv⟩ := h.mem_left v hm
+    exact .inr ⟨v, v', rfl, find_of_mem_nodup f l' v' k hn' hm' (by rw [← hf v v' hvv]; exact hk'), hvv⟩
+  | none =>
+    refine .inl ⟨rfl, ?_⟩
+    cases hfind' : l'.find? (fun x => f x == k) with
+    | none => rfl
+    | some v' =>
+      exfalso
+      obtain ⟨hm', hk⟩ := mem_of_find _ l' v' hfind'
+      have hk' : f v' = k := by simpa using hk
+      obtain ⟨v, hm, hvv⟩ := h.mem_right v' hm'
+      have := find_of_mem_nodup f l v k hn hm (by rw [hf v v' hvv]; exact hk')
+      rw [hfind] at this; cases this
+
+/-- **`__getitem__` under rearrangement**: by key, by UID, or by descending along a dashed path -/
+theorem c8_getItem_congr : ∀ (fuel : Nat) {l l' : List Variant}, TLEq l l' → c8Siblings l → ∀ (name : Str) (v : Variant),
+    getItem fuel l name = .ok v → ∃ v', getItem fuel l' name = .ok v' ∧ TVEq v v'
+  | 0, _, _, _, _, _, _, h => by simp [getItem] at h
+  | fuel + 1, l, l', hl, hs, name, v, h => by
+    have hkey := c8_find_congr Variant.key (fun _ _ e => e.key_eq) hl hl.keys hs.1
+    have huid := c8_find_congr Variant.uid (fun _ _ e => e.uid_eq) hl hl.uids hs.2.1
+    unfold getItem at h ⊢
+    rcases hkey name with ⟨h1, h1'⟩ | ⟨a, a', h1, h1', haa⟩
+    · rw [h1] at h; rw [h1']
+      simp only at h ⊢
+      by_cases hc : name.contains '-' = true
+      · simp only [hc, if_true] at h ⊢
+        rcases huid name with ⟨h2, h2'⟩ | ⟨b, b', h2, h2', hbb⟩
+        · rw [h2] at h; rw [h2']
+          simp only at h ⊢
+          cases hsp : Str.split1 '-' name with
+          | nil => rw [hsp] at h; simp at h
+          | cons hd rest =>
+            cases rest with
+            | nil => rw [hsp] at h; simp at h
+            | cons tl rest2 =>
+              cases rest2 with
+              | cons _ _ => rw [hsp] at h; simp at h
+              | nil =>
+                rw [hsp] at h
+                simp only at h ⊢
+                rcases hkey hd with ⟨h3, h3'⟩ | ⟨c, c', h3, h3', hcc⟩
+                · rw [h3] at h; simp at h
+                · rw [h3] at h; rw [h3']
+                  simp only at h ⊢
+                  have hcm := (mem_of_find _ l c h3).1
+                  exact c8_getItem_congr fuel hcc.kids (c8SibV_kids (c8SibL_mem hs.2.2 c hcm)) tl v h
+        · rw [h2] at h; rw [h2']
+          simp only at h ⊢
+          injection h with h; subst h
+          exact ⟨b', rfl, hbb⟩
+      · simp only [hc] at h
+        simp at h
+    · rw [h1] at h; rw [h1']
+      simp only at h ⊢
+      injection h with h; subst h
+      exact ⟨a', rfl, haa⟩
+
+/-- every `main_variant`, when siblings are told apart by key and by UID -/
+theorem c8_getTransfer_sib {t t' : TreeInfo} (mv : Option Str) (hs : Same t t') (hsib : c8Siblings t.variants) :
+    c8GetTransfer t t' mv :=
+  fun key v _ hget => c8_getItem_congr (key.length + 1) hs.variants hsib key v hget
+
+/-! ### symmetry: what holds for `t` holds for `t'` -/
+
+theorem ImgR.symm {p q : Str × List (Str × Str)} (h : ImgR p q) : ImgR q p := ⟨h.1.symm, h.2.symm⟩
+
+theorem Same.symm {t t' : TreeInfo} (hs : Same t t') : Same t' t :=
+  ⟨hs.headerVersion.symm, hs.release.symm, hs.isLayered.symm, hs.baseProduct.symm, hs.arch.symm, hs.ts.symm,
+   fun x => (hs.platforms x).symm, hs.variants.symm, hs.checksums.symm, PermR.symm (fun _ _ => ImgR.symm) hs.images,
+   hs.mainimage.symm, hs.instimage.symm, hs.discnum.symm, hs.totaldiscs.symm⟩
+
+theorem c8_dictKeys_congr {t t' : TreeInfo} (hs : Same t t') (hk : DictKeys t) : DictKeys t' := by
+  refine ⟨hs.variants.keys.nodup_iff.mp hk.tops, (hs.checksums.map (·.1)).nodup_iff.mp hk.checksums, ?_⟩
+  intro q hq
+  obtain ⟨p, hp, hr⟩ := hs.images.mem_right q hq
+  exact (hr.2.map (·.1)).nodup_iff.mp (hk.images p hp)
+
+theorem c8_mainVariantTop_congr {t t' : TreeInfo} {mv : Option Str} (hs : Same t t') (h : MainVariantTop t mv) :
+    MainVariantTop t' mv := by
+  intro m hm
+  obtain ⟨v, hv, hk⟩ := h m hm
+  obtain ⟨v', hv', hvv⟩ := hs.variants.mem_left v hv
+  exact ⟨v', hv', by rw [← hvv.key_eq]; exact hk⟩
 
 end TI
 end PM
